@@ -269,6 +269,34 @@ pub fn exec(op: &str, a: &[Vec<u8>]) -> Out {
             o.push(pre.is_empty() as u8);
             Out::Ok(o)
         }
+        // [start point, steps (65 bytes each: kind, scalar s, scalar t)] -> compress after every step.
+        // Results of one multiplication are fed, un-normalised, into the next one.
+        "sm.chain" => {
+            let mut q = need!(pt(&a[0]));
+            let mut r = q;
+            if a[1].len() % 65 != 0 {
+                return Out::Rej;
+            }
+            let mut o = vec![];
+            for st in a[1].chunks(65) {
+                let s = need!(sc_any(&st[1..33]));
+                let t = need!(sc_any(&st[33..65]));
+                let prev = q;
+                q = match st[0] % 8 {
+                    0 => &q * &s,
+                    1 => EdwardsPoint::vartime_double_scalar_mul_basepoint(&s, &q, &t),
+                    2 => EdwardsPoint::multiscalar_mul(&[s, t], &[q, r]),
+                    3 => EdwardsPoint::vartime_multiscalar_mul(&[s, t], &[q, r]),
+                    4 => &q + &r,
+                    5 => &EdwardsPoint::mul_base(&s) + &q,
+                    6 => -&q,
+                    _ => &(&q * &s) - &(&r * &t),
+                };
+                r = prev;
+                o.extend_from_slice(&enc(&q));
+            }
+            Out::Ok(o)
+        }
         #[cfg(curve25519_dalek_verif)]
         "sm.recode" => {
             // [scalar (< 2^255, raw), kind (0 radix16, 1 radix2w, 2 naf), w]
